@@ -68,7 +68,7 @@ func processSSDPNotify(raw []byte) (name packet.NameEntry, location string, err 
 		cacheControl := req.Header.Get("CACHE-CONTROL")
 		options := strings.Split(cacheControl, "=")
 		if len(options)^2 == 0 { // make sure it is pairs of key / value
-			for i := range options {
+			for i := 0; i+1 < len(options); i++ {
 				if strings.ToLower(options[i]) == "max-age" {
 					seconds, _ = strconv.Atoi(options[i+1])
 					break
